@@ -15,10 +15,11 @@ from ..corr import build_model
 HEAD = 'Binde "Duden/Ausgabe" ein.\n'
 
 
-DIRS = ["", "pkg", "pkg/tief"]
+DIRS = ["", "pkg", "pkg/ap"]
 # file names of the modules 1..5: pairwise different only in trailing characters that also occur in the extension ".ddp",
-# sorted like their numbers (a directory walk lists files by name)
-MODNAMES = {1: "ad", 2: "add", 3: "ap", 4: "apd", 5: "app"}
+# sorted like their numbers (a directory walk lists files by name); "pkg/ap/ad.ddp" and "pkg/ap_ad.ddp" (likewise add) are
+# different modules whose paths differ only in `/` against `_`; "pkg/ap.ddp" stands next to the directory "pkg/ap"
+MODNAMES = {1: "ad", 2: "add", 3: "ap", 4: "ap_ad", 5: "ap_add"}
 
 
 def mname(k):
@@ -93,6 +94,11 @@ def gen_case(rng, with_dirs=False):
     of modules the import statements of k bring in, in order (a directory import stands for its modules)"""
     n = 2 + rng.below(4)
     dirs = {k: (DIRS[rng.below(3)] if with_dirs and rng.below(100) < 60 else "") for k in range(1, n + 1)}
+    twins = with_dirs and rng.below(6) == 0
+    if twins:       # two modules whose paths differ only in `/` against `_`, both part of the program
+        n = max(n, 4)
+        dirs.update({k: dirs.get(k, "") for k in range(1, n + 1)})
+        dirs[1], dirs[4] = "pkg/ap", "pkg"
     graph, listed, stmts = {}, {}, {}
     for k in range(1, n + 1):
         lower = rng.shuffle(list(range(1, k)))
@@ -112,6 +118,8 @@ def gen_case(rng, with_dirs=False):
     for k in range(1, n + 1):
         vals[k] = k + sum(vals[i] for i in graph[k])
     main = [i for i in rng.shuffle(list(range(1, n + 1))) if rng.below(100) < 65] or [n]
+    if twins:
+        main += [i for i in (1, 4) if i not in main]
     if with_dirs:
         for d in DIRS[1:]:
             rec = rng.below(2) == 1
